@@ -17,7 +17,7 @@ from vf.common import Ctx
 
 LEVEL = "exploration"
 RULE = ("cases = (frame sequence, trailing partial frame, segmentation of the byte stream, chunk buffer type); "
-        "streams: every (type-class x length-class) single frame, seeded multi-frame streams, and all tiny streams; "
+        "streams: every (type-class x length-class) single frame, seeded multi-frame streams, bursts of 129..6000 small frames, and all tiny streams; "
         "segmentations: whole / per-frame / bytewise / every single cut / pairs / random / ALL 2^(n-1) for short streams; "
         "a case is non-trivial when at least one frame was delivered and checked; distinct = distinct "
         "(frame shape classes, cut-position classes, buffer type, trailing class) signature")
@@ -172,6 +172,13 @@ def streams(ctx: Ctx) -> list[tuple[str, list[tuple[int, bytes]]]]:
             salt += 1
             fr.append((ty, payload(ln, salt)))
         out.append(("multi", fr))
+    # bursts: hundreds to thousands of complete small frames, so that a single chunk can carry far more frames than any per-call bound
+    for nfr in ((129, 200, 257, 513, 1000, 2500, 6000) if ctx.thorough else (129, 257, 600, 1500)):
+        fr = []
+        for _ in range(nfr):
+            salt += 1
+            fr.append((rng.choice((1, 7, 27, 93, 119, 300)), payload(rng.choice((0, 0, 1, 2, 5, 9)), salt)))
+        out.append(("burst", fr))
     return out
 
 
@@ -193,6 +200,8 @@ def check(ctx: Ctx, frames: list[tuple[int, bytes]], tail: Any, tail_prefix: int
     res.evaluations += 1
     res.count(f"chunking/{label}")
     res.count(f"buffer/{kind}")
+    if len(frames) > 128:
+        res.count("bursts_of_more_than_128_frames")
     total = r["stream_len"]
     lay = layout_of(frames + ([tail] if tail else []))
     classes = sorted({cut_class(c, lay, total) for c in cuts})
@@ -200,7 +209,7 @@ def check(ctx: Ctx, frames: list[tuple[int, bytes]], tail: Any, tail_prefix: int
         res.count(f"cutclass/{cl}")
     if r["n_delivered"]:
         res.count("frames_delivered_and_checked", r["n_delivered"])
-        res.sig(tuple(frame_class(*f) for f in frames), tuple(classes), kind,
+        res.sig(tuple(frame_class(*f) for f in frames) if len(frames) <= 8 else ("burst", len(frames)), tuple(classes), kind,
                 None if not tail else (frame_class(*tail), min(tail_prefix, 9)), len(cuts) if len(cuts) < 4 else "many")
     for key, what in r["problems"]:
         case = {"frames": [(t, p.hex() if len(p) <= 64 else f"payload({len(p)})") for t, p in frames],
@@ -229,7 +238,7 @@ def shard(ctx: Ctx) -> None:
         boundaries = []
         for start, parts in lay:
             boundaries += [start + parts["length"][1], start + parts["type"][1], start + parts["payload"][1]]
-        big = stream_len > 5000
+        big = stream_len > 5000 or label == "burst"
         tails: list[tuple[Any, int]] = [(None, 0)]
         tf = (rng.choice(TYPES), payload(rng.choice([0, 1, 5, 200]), idx))
         tb = len(refcodec.enc_plain(*tf))
@@ -239,14 +248,19 @@ def shard(ctx: Ctx) -> None:
                 tails.append((tf, p))
         if tb == 1:
             tails = tails[:1]
+        burst = label == "burst"
+        if burst:
+            tails = tails[:2]
+            # cuts around the frames next to powers of two of the frame count only (every boundary would be thousands of single cuts)
+            boundaries = [lay[i][0] for i in (1, 64, 127, 128, 129, 130, 255, 256, 257, 512, 1024, len(lay) - 1) if i < len(lay)]
         for ti, (tail, tp) in enumerate(tails):
             n = stream_len + tp
             gen = wire.chunkings(
                 n, boundaries, rng,
-                n_random=(6 if big else 30) * (3 if ctx.thorough else 1),
-                pairs=(4 if big else 20) * (3 if ctx.thorough else 1),
+                n_random=(2 if burst else 6 if big else 30) * (3 if ctx.thorough else 1),
+                pairs=(1 if burst else 4 if big else 20) * (3 if ctx.thorough else 1),
                 exhaustive_upto=0,
-                single_cap=(40 if big else 200) * (2 if ctx.thorough else 1) if ti == 0 else 25,
+                single_cap=(4 if burst else 40 if big else 200) * (2 if ctx.thorough else 1) if ti == 0 else (3 if burst else 25),
             )
             for ci, (clabel, cuts) in enumerate(gen):
                 if big and clabel == "bytewise":
